@@ -85,12 +85,17 @@ def bitop(ex, op, a, b):
             r2 = lift_int(bitop(ex, op, Sym(p, INT), c2))
             return mk_int(z3.If(cond, r1, r2))
     # general case: 64-bit bit-vectors, both operands must be in range
+    if ex.opt.get("bv_bitops") is False:
+        raise OutOfReach(f"bit operation {op} on two symbolic integers")
+    # general case: 64-bit two's complement (Python's infinite-precision
+    # result agrees with it when both operands fit signed 64 bits)
     W = 64
-    ex.check_internal("bit operation operands within 0..2^64-1",
-                      z3.And(x >= 0, x < 2**W, y >= 0, y < 2**W))
+    ex.check_internal("bit operation operands within -2^63..2^63-1",
+                      z3.And(x >= -2**(W - 1), x < 2**(W - 1), y >= -2**(W - 1), y < 2**(W - 1)))
     bx, by = z3.Int2BV(x, W), z3.Int2BV(y, W)
     r = {"&": bx & by, "|": bx | by, "^": bx ^ by}[op]
-    return mk_int(z3.BV2Int(r))
+    u = z3.BV2Int(r)
+    return mk_int(z3.If(u >= 2**(W - 1), u - 2**W, u))
 
 
 def floordiv(ex, a, b):
